@@ -79,6 +79,17 @@ def viol(ctx, clause, what, case):
 def check_snap(ctx, drv, rng, td):
     tps = rng.choice(TPS)
     rows, arrivals = make_rows(rng, tps, rng.randint(1, 12))
+    if rng.random() < 0.25:
+        # arrivals below 1e-4 s the way Python writes them (exponent notation: what `tools jitter` leaves behind for a pipeline arriving at t = 0);
+        # the text 7.7e-06 is the number 0.0000077
+        tiny = sorted(rng.choice([7.739560485559635e-06, 2.5e-05, 4.388784397520523e-06, 9.9e-05, 1e-05, 3.2e-07]) for _ in range(3))
+        k = 0
+        for r in rows:
+            if r["arrival_seconds"] and k < len(tiny):          # snap works row by row: the order of the arrivals does not matter to it
+                r["arrival_seconds"] = repr(tiny[k]); k += 1
+        if k:
+            arrivals = [r["arrival_seconds"] for r in rows if r["arrival_seconds"]]
+            ctx.sit("snap_arrivals_in_exponent_notation")
     if len(rows) % 5 == 0:
         annotate(random.Random(len(rows)), rows)
         ctx.sit("traces_with_extra_columns")
